@@ -30,8 +30,8 @@ RULE = ('one evaluation = one path = one option x one layering (which of file 1 
         'non-trivial = at least two layers present')
 BOUNDS = {
     'quick': 'one representative option per type and section (5 integer, 1 float, 4 string, all 16 boolean, 4 list, 3 dictionary options) x layers {default, file 1, file 2, command line} '
-             'each present or absent (symbolic) x integer/float values of 1-2 symbolic digits, strings and list items of 2 symbolic letters, 10 boolean spellings, paired flags; '
-             'interpolation of %(name)s / %% in string and list options with the referenced option overridden',
+             'each present or absent (symbolic) x integer/float values of 1-2 symbolic digits, strings of 0-2 symbolic letters (the empty value included), list items of 2 symbolic letters, 10 boolean spellings, paired flags; '
+             'interpolation of %(name)s / %% in string and list options with the referenced option overridden, and of options whose current value is 0 or empty',
     'thorough': 'every integer/string/list option of every section, 3 files',
 }
 ASSUMPTIONS = ['configparser.ConfigParser is replaced by a stub serving (section, key, value) triples in symbolic runs (keys lower-cased, values stripped, later reads merged into the same '
@@ -224,7 +224,9 @@ def h_str(e, idx):
     cfg = _config()
     default = cfg[sec][key]
     f1, f2, cl = _layers(e)
-    s1, s2 = _letters(e, 'a', 2), _letters(e, 'b', 2)
+    # values of 0-2 characters: an empty value in a later layer replaces an earlier non-empty one
+    s1 = _letters(e, 'a', e.choice(3, 'len1')) if f1 else ''
+    s2 = _letters(e, 'b', e.choice(3, 'len2')) if f2 else ''
     files = [{sec: [(key, s1)]} if f1 else None, {sec: [(key, s2)]} if f2 else None]
     argv = [flag, 'zz'] if cl else []
     try:
@@ -377,6 +379,25 @@ def h_interp(e):
     e.nontriv()
 
 
+def h_interp_falsy(e):
+    """%(name)s refers to the current value of the named option also when that value is 0 or empty"""
+    cfg = _config()
+    d = ['0', '7', '10'][e.choice(3, 'split-level')]
+    f2 = e.bool('file2')
+    files = [{'files': [('split-level', d)], 'document': [('toc-depth', '0')],
+              'general': [('theme', api.cat(['s%(split-level)s-t%(toc-depth)s-r%(resolution)s-u%(base-url)sz']))]},
+             {'document': [('base-url', '')]} if f2 else None]
+    try:
+        _load(e, cfg, files, [])
+        theme = cfg['general']['theme']
+    except (ValueError, TypeError, KeyError, AttributeError) as ex:
+        e.fail_exception(ex)
+        return
+    e.observe(theme)
+    e.check(eq(theme, api.cat(['s', d, '-t0-r0-uz'])), 'interpolation of options whose value is 0 / empty', 'interpolation:falsy')
+    e.nontriv()
+
+
 BOOLS = _bool_opts()
 
 
@@ -395,4 +416,5 @@ def jobs(tier, seed):
     for w in ('counters', 'logging', 'scales'):
         J.append(dict(harness='h_dict', params=dict(which=w), label='dict %s' % w))
     J.append(dict(harness='h_interp', params={}, label='interpolation'))
+    J.append(dict(harness='h_interp_falsy', params={}, label='interpolation of falsy values'))
     return J
